@@ -26,6 +26,11 @@ var Specs = map[string]*core.Spec{
 		Real: w3Real, Stub: w3Stub,
 		RequiredProbes: []string{"raw-nested", "raw-key-1025", "raw-value-2mib+1", "raw-ok-key-1024", "raw-ok-value-2mib", "raw-follower-table-create", "raw-empty-oneof"},
 		Assumptions:    []string{"a process-killing panic in a handler kills the worker process; the runner attributes it to the schedule that was running and reports it as a violation of this property"}},
+	"C14": {Prop: "C14", World: "W3 clustersim", Gen: GenC14, Decode: Decode, Exec: Exec,
+		Rule: "1- or 3-node cluster; create / delete / list over 2-4 names through the real Tables gRPC service on different nodes, pairs of them racing (asynchronous with delays), interleaved with data operations, metadata-replica lag, node restarts and clock advances across the reconcile (30 s) and clean-up (5 min) periods; oracle = compare-and-set replay of the ground-truth metadata log: every acknowledged create/delete has its own successful entry inside its call window, creates of an existing name never succeed, ids strictly increase and are never reused, refusals without any overlapping catalogue change are violations, lists equal the catalogue at some index the node could have seen; every catalogued table equals the replay of its own shard log (new tables empty, no cross-table effects); after two quiet reconcile periods every node runs exactly the catalogued shards; non-trivial = every run with >=1 successful create and >=1 racing pair or delete; distinct = digests of catalogue outcomes",
+		Real: w3Real, Stub: w3Stub,
+		RequiredProbes: []string{"create-ok", "delete-ok", "list-ok", "create-refused-exists", "table-content-checked", "reconciled-node-checked"},
+		Assumptions:    []string{"the catalogue is read with local (stale) reads by design: a change a node's metadata replica has not applied yet counts as overlapping for that node"}},
 }
 
 func TestRun(t *testing.T) { core.Main(t, Specs) }
